@@ -281,7 +281,7 @@ class Solver:
             self.s.add(*assertions)
             t0 = time.time()
             r = self.s.check()
-            res = {z3.sat: "sat", z3.unsat: "unsat"}.get(r, "unknown")
+            res = "sat" if r == z3.sat else ("unsat" if r == z3.unsat else "unknown")
             self.tally.count(res, time.time() - t0)
             model = self.s.model() if res == "sat" else None
             return res, model
